@@ -6,6 +6,7 @@ import StarsimModel.Generated.Disease_cholera
 import StarsimModel.Generated.Disease_gonorrhea
 import StarsimModel.Generated.Disease_hiv
 import StarsimModel.Generated.Disease_syphilis
+import StarsimModel.Generated.Treat_syphilis
 import StarsimModel.Model.Proto
 open StarsimModel StarsimModel.Proto
 
@@ -14,6 +15,7 @@ Line protocol of C13 (one operation per line, one answer per line):
 
   names <disease>                         -> ok f1,f2,...            the flag order of the generated record
   guards <disease> <method>               -> ok <n>                  number of guard atoms of the generated function
+  treat <product> <flagbits> <guards>     -> ok b|b|...              syphilis treatment round (Generated/Treat_syphilis.lean)
   <disease> <method> <flagbits> <guards>  -> ok b|b|...              flag bits after the generated per-agent function
 
 <flagbits> is a string of 0/1 in the order of `names`; <guards> is a string of 0/1/? in the order of the generated
@@ -81,6 +83,15 @@ def stepLine (u : Unit) (line : String) : Unit × String :=
   match words line with
   | ["names", d] => (u, match flagNames d with | some l => "ok " ++ ",".intercalate l | none => "bad-op")
   | ["guards", d, m] => (u, match guardCount d m with | some n => s!"ok {n}" | none => "bad-op")
+  | ["treat", prod, fb, gb] =>
+      match parseBits fb, parseBits gb with
+      | some fl, some gl =>
+          if fl.any Option.isNone then (u, "bad-op") else
+          let flags := fl.filterMap id
+          let outs := (completions gl).map fun g => Gen.TreatSyphilis.run prod flags g
+          if outs.any Option.isNone then (u, "bad-op")
+          else (u, "ok " ++ "|".intercalate (dedup (outs.filterMap (·.map showBits))))
+      | _, _ => (u, "bad-op")
   | [d, m, fb, gb] =>
       match parseBits fb, parseBits gb with
       | some fl, some gl =>
